@@ -287,3 +287,16 @@ Theorem C05_entry_strides_agree :
   ITER_FILL_JSTEP = BLD_JSTEP.
 Proof. exact OffsetTies.strides_agree. Qed.
 Print Assumptions C05_entry_strides_agree.
+
+(* M6 (second review): the fuel the model passes is never what decides an answer, on ARBITRARY inputs -- also for the loops
+   whose exhaustion is an ordinary value (None, Ok None, Ok buf, PErr, the input itself), about which `<> Err EFuel` says
+   nothing: any fuel above the one the model passes gives the same answer (FuelIndep.v) *)
+From JB Require FuelIndep.
+Theorem C05_fuel_is_never_decisive :
+  (forall k bs i len index joff voff, (length bs < k)%nat -> Walk.jbi_loop k bs i len index joff voff = Walk.jbi_loop (S (length bs)) bs i len index joff voff) /\
+  (forall k bs i len j, (length bs < k)%nat -> Walk.rd_words k bs i len j = Walk.rd_words (S (length bs)) bs i len j) /\
+  (forall k bs i len joff voff, (length bs < k)%nat -> Walk.values_loop k bs i len joff voff = Walk.values_loop (S (length bs)) bs i len joff voff) /\
+  (forall func bs k i size joff voff back, (length bs < k)%nat -> CastWalk.tcs_entries k func bs i size joff voff back = CastWalk.tcs_entries (S (length bs)) func bs i size joff voff back) /\
+  (forall func bs k, (S (length bs) < k)%nat -> CastWalk.tcs_run k func bs [0] = CastWalk.traverse_check_string_b bs func).
+Proof. split; [exact FuelIndep.jbi_any_fuel|split; [exact FuelIndep.rd_words_any_fuel|split; [exact FuelIndep.values_any_fuel|split; [exact FuelIndep.tcs_entries_any_fuel|exact FuelIndep.traverse_check_string_any_fuel]]]]. Qed.
+Print Assumptions C05_fuel_is_never_decisive.
